@@ -3,6 +3,7 @@ package rules
 import (
 	"fmt"
 	"go/ast"
+	"go/constant"
 	"go/token"
 	"go/types"
 	"sort"
@@ -164,6 +165,83 @@ func R15() Rule {
 		for _, h := range handlers {
 			always[h] = true // optimistic start, refine downwards
 		}
+		// conditional responders: helpers with a single bool result that have written a response
+		// exactly when they return a given constant (`if !g.runLocked(ctx, w, …) { return }`);
+		// condWhen[h] is that constant
+		condWhen := map[*handlerFn]bool{}
+		isCond := map[*handlerFn]bool{}
+		boolLit := func(e ast.Expr) (bool, bool) {
+			id, ok := ast.Unparen(e).(*ast.Ident)
+			if !ok {
+				return false, false
+			}
+			if tv, has := info.Types[id]; has && tv.Value != nil && tv.Value.Kind() == constant.Bool {
+				return constant.BoolVal(tv.Value), true
+			}
+			return false, false
+		}
+		// condCall: e is a call of a conditional responder that is handed h's writer
+		condCall := func(h *handlerFn, e ast.Expr) (*handlerFn, bool) {
+			call, ok := ast.Unparen(e).(*ast.CallExpr)
+			if !ok {
+				return nil, false
+			}
+			callee, known := byObj[calleeObj(info, call)]
+			if !known || !isCond[callee] {
+				return nil, false
+			}
+			for _, a := range call.Args {
+				if id, ok := ast.Unparen(a).(*ast.Ident); ok && info.Uses[id] == h.w {
+					return callee, true
+				}
+			}
+			return nil, false
+		}
+		// edgeWritten: block b of h ends in a condition on the result of a conditional responder;
+		// returns the successor index on which the response is known to have been written
+		edgeWritten := func(h *handlerFn, b *cfg.Block) (int, bool) {
+			if len(b.Nodes) == 0 || len(b.Succs) != 2 {
+				return 0, false
+			}
+			cond, ok := b.Nodes[len(b.Nodes)-1].(ast.Expr)
+			if !ok {
+				return 0, false
+			}
+			neg := false
+			cond = ast.Unparen(cond)
+			if u, isU := cond.(*ast.UnaryExpr); isU && u.Op == token.NOT {
+				neg, cond = true, ast.Unparen(u.X)
+			}
+			var callee *handlerFn
+			if cal, isCall := condCall(h, cond); isCall {
+				callee = cal
+			} else if id, isId := cond.(*ast.Ident); isId {
+				v := info.Uses[id]
+				// the last assignment of v in this block comes from such a call
+				for _, n := range b.Nodes[:len(b.Nodes)-1] {
+					as, isAs := n.(*ast.AssignStmt)
+					if !isAs || len(as.Lhs) != 1 || len(as.Rhs) != 1 {
+						continue
+					}
+					lid, isL := as.Lhs[0].(*ast.Ident)
+					if !isL || (info.Defs[lid] != v && info.Uses[lid] != v) {
+						continue
+					}
+					callee = nil
+					if cal, isCall := condCall(h, as.Rhs[0]); isCall {
+						callee = cal
+					}
+				}
+			}
+			if callee == nil {
+				return 0, false
+			}
+			// then-edge (Succs[0]): cond true, i.e. result == !neg
+			if (!neg) == condWhen[callee] {
+				return 0, true
+			}
+			return 1, true
+		}
 		// envelope primitives are axioms: gapiError and jsonRespond write by construction
 		// (checked separately below), so treat them as writers without analysing their bodies.
 		isWriteCall := func(h *handlerFn, call *ast.CallExpr) bool {
@@ -229,6 +307,9 @@ func R15() Rule {
 		type exitInfo struct {
 			ok      bool
 			badExit token.Pos
+			// per bool-literal return: has the response been written there?
+			retWritten map[bool][]bool
+			plainRet   bool // some exit is not a `return true/false`
 		}
 		analyse := func(h *handlerFn) exitInfo {
 			g := graphs[h]
@@ -261,8 +342,12 @@ func R15() Rule {
 							if outv[p] == -1 {
 								continue
 							}
-							if v == -1 || outv[p] < v {
-								v = outv[p]
+							pv := outv[p]
+							if si, has := edgeWritten(h, g.Blocks[p]); has && g.Blocks[p].Succs[si] == b && g.Blocks[p].Succs[1-si] != b {
+								pv = 1
+							}
+							if v == -1 || pv < v {
+								v = pv
 							}
 						}
 					}
@@ -281,6 +366,7 @@ func R15() Rule {
 					}
 				}
 			}
+			res := exitInfo{ok: true, retWritten: map[bool][]bool{}}
 			for _, b := range g.Blocks {
 				if !b.Live || len(b.Succs) > 0 || outv[b.Index] == -1 {
 					continue
@@ -289,24 +375,66 @@ func R15() Rule {
 				if endsInNoReturn(info, b) {
 					continue
 				}
-				if outv[b.Index] != 1 {
+				lit := false
+				if len(b.Nodes) > 0 {
+					if rs, isRet := b.Nodes[len(b.Nodes)-1].(*ast.ReturnStmt); isRet && len(rs.Results) == 1 {
+						if bv, isB := boolLit(rs.Results[0]); isB {
+							lit = true
+							res.retWritten[bv] = append(res.retWritten[bv], outv[b.Index] == 1)
+						}
+					}
+				}
+				if !lit {
+					res.plainRet = true
+				}
+				if outv[b.Index] != 1 && res.ok {
 					pos := h.body.Rbrace
 					if len(b.Nodes) > 0 {
 						pos = b.Nodes[len(b.Nodes)-1].Pos()
 					}
-					return exitInfo{false, pos}
+					res.ok, res.badExit = false, pos
 				}
 			}
-			return exitInfo{ok: true}
+			return res
 		}
 		results := map[*handlerFn]exitInfo{}
-		for changed := true; changed; {
+		singleBool := func(h *handlerFn) bool {
+			if h.typ.Results == nil || len(h.typ.Results.List) != 1 || len(h.typ.Results.List[0].Names) > 1 {
+				return false
+			}
+			t := info.TypeOf(h.typ.Results.List[0].Type)
+			bt, isB := t.Underlying().(*types.Basic)
+			return isB && bt.Kind() == types.Bool
+		}
+		for round, changed := 0, true; changed && round < 20; round++ {
 			changed = false
 			for _, h := range handlers {
 				r := analyse(h)
 				results[h] = r
 				if always[h] != r.ok {
 					always[h] = r.ok
+					changed = true
+				}
+				// written exactly on one of the two results?
+				cond, when := false, false
+				if !r.ok && !r.plainRet && singleBool(h) && len(r.retWritten[true]) > 0 && len(r.retWritten[false]) > 0 {
+					all := func(vs []bool, want bool) bool {
+						for _, v := range vs {
+							if v != want {
+								return false
+							}
+						}
+						return true
+					}
+					switch {
+					case all(r.retWritten[false], true) && all(r.retWritten[true], false):
+						cond, when = true, false
+					case all(r.retWritten[true], true) && all(r.retWritten[false], false):
+						cond, when = true, true
+					}
+				}
+				if isCond[h] != cond || (cond && condWhen[h] != when) {
+					isCond[h], condWhen[h] = cond, when
 					changed = true
 				}
 			}
@@ -320,6 +448,8 @@ func R15() Rule {
 			}
 			if r.ok {
 				c.Ok("R15", construct, h.pos, true, "every path through the handler writes a response (directly or through a handler that always does)")
+			} else if isCond[h] {
+				c.Ok("R15", "b/"+h.name+"/responds-exactly-when-it-says", h.pos, true, "has written a response exactly when it returns %v; callers branch on the result", condWhen[h])
 			} else {
 				c.Bad("R15", construct, r.badExit, "a path through handler %s reaches this exit without writing any response: the client gets an empty 200", h.name)
 			}
